@@ -12,53 +12,22 @@ TRUSTED_BASE = [
 PROPS = {}
 PENDING = {}
 
-PROPS["C08"] = dict(
-    claim="Theorems C08_grammar, C08_no_misread, C08_transfer, C08_deadline, C08_none, C08_key_case_insensitive, C08_pick_sound "
-          "(coq/Props/C08.v) hold for every byte string / every remaining time of the Gallina model of parseGrpcTimeout, the deadline "
-          "branch of headersFromContext and the header scan of contextFromHeaders; model and code are run on the same inputs on every run.",
-    props="Props/C08.v",
-    theorems=["C08_grammar", "C08_no_misread", "C08_transfer", "C08_deadline", "C08_none",
-              "C08_key_case_insensitive", "C08_pick_sound"],
-    imports=["Base.Bytes", "Model.Timeout", "Check.C08c"],
-    case_type="c08case",
-    find_bad_from="find_bad_from",
-    rigs=[dict(test="TestC08", timeout_quick=300, timeout_thorough=900)],
-    reason_text={"1": "implementation output differs from the Gallina model (Model/Timeout.v)",
-                 "2": "implementation output violates the property predicate (Check/C08c.v: spec_*_ok)"},
-    rule="cases = inputs to parseGrpcTimeout (grammar grid 6 units x 1..20 digits x {zero,one,nines,random,"
-         "saturation boundary +-2}, int64 boundary, malformed and mutated strings), remaining times for the client "
-         "header (ms boundaries 1ms..10^11ms +-1ns, expired, random), header lists for the server-side scan; "
-         "non-trivial = every case (each is a distinct input by its description hash)",
-    assumptions=["strconv.ParseInt, fmt.Sprintf(%d), context.WithTimeout and the clock are Go's (modelled, validated differentially)",
-                 "transit time is an abstract t1 - t0 >= 0"],
-)
+# One file per property: lib/props/<id>.py defines CFG = dict(
+#   claim=<text for MANIFEST level_claimed>, props="Props/<id>.v", theorems=[names that must be in it],
+#   imports=[Coq modules the cases files import], case_type=<Coq type of one case>,
+#   find_bad_from=<Coq function nat -> list case -> list (nat * list nat)>,
+#   rigs=[dict(test=<Go test name>, timeout_quick=s, timeout_thorough=s)],
+#   reason_text={code: text}   (1 = model disagreement, >= 2 = property predicate failed on the real history),
+#   rule=<what the cases are>, assumptions=[...], optional level_note / technique / trusted_extra / allowed_axioms)
+import importlib, pkgutil, os as _os
+for _m in sorted(pkgutil.iter_modules([_os.path.join(_os.path.dirname(__file__), "props")]), key=lambda m: m.name):
+    _mod = importlib.import_module("props." + _m.name)
+    if hasattr(_mod, "CFG"): PROPS[_m.name] = _mod.CFG
+    if hasattr(_mod, "DEBUG"): globals().setdefault("PROPS_DEBUG", {})[_m.name] = _mod.DEBUG
 
-PROPS["C04"] = dict(
-    claim="Theorems C04_base64_roundtrip, C04_codec_exact, C04_values_kept, C04_no_invention, C04_values_general (metadata codec: "
-          "byte-exact round trip for every metadata map and every map iteration order) and C04_flush_headers, C04_flush_trailers "
-          "(server stream object: for every program of header/trailer/message calls the first envelope carries exactly the accepted "
-          "header metadata, the single trailer envelope exactly the accepted trailer metadata) in coq/Props/C04.v; the models are run "
-          "against ToKeyValue/ToMetadata, the real serverStream and the unary collector on every run.",
-    props="Props/C04.v",
-    theorems=["C04_base64_roundtrip", "C04_codec_exact", "C04_values_kept", "C04_no_invention",
-              "C04_values_general", "C04_flush_headers", "C04_flush_trailers"],
-    imports=["Base.Bytes", "Model.Base64", "Model.Meta", "Model.SrvStream", "Check.C04c"],
-    case_type="c04case",
-    find_bad_from="find_bad_from",
-    rigs=[dict(test="TestC04", timeout_quick=300, timeout_thorough=1200)],
-    reason_text={"1": "implementation output differs from the Gallina model (Model/Meta.v, Base64.v, SrvStream.v)",
-                 "2": "implementation output violates the property predicate (Check/C04c.v: spec_codec / spec_stream / accepted tokens)"},
-    rule="codec: seeded metadata sets (0..16 keys over the gRPC key alphabet in any letter case, -bin suffix in 4 case variants, "
-         "1..4 values, binary values incl. empty/NUL/0xFF/alphabet chars 62-63/long, keys colliding after lower-casing, 1..3 maps "
-         "joined) through ToKeyValue then ToMetadata; base64 decoder on fixed + random malformed strings (CR/LF, padding, std "
-         "alphabet, raw); ToMetadata on mixed lists; server stream object: ALL programs of length<=4 (thorough: 5) over "
-         "{SetHeader,SendHeader,SetTrailer,SendMsg,SendTrailer} plus random longer ones; unary collector: all programs of "
-         "length<=5; non-trivial = distinct description hash",
-    assumptions=["encoding/base64, strings.ToLower/HasSuffix, metadata.Join and Go map iteration are Go's/grpc's: modelled and validated differentially, not verified",
-                 "values under text keys are not inspected by the library (opaque)"],
-)
 
-PROPS_DEBUG = {}
+
+PROPS_DEBUG = globals().get("PROPS_DEBUG", {})
 PROPS_DEBUG["CL"] = dict(
     claim="debug", props="Props/C08.v", theorems=[],
     imports=["Model.Client", "Check.ClientC"], case_type="ccase", find_bad_from="find_bad_from",
